@@ -41,7 +41,7 @@ def body_nodoc(fn):
 
 
 
-ALL = ("tables",)   # every translator module in harness/translators/ that setup.sh should run
+ALL = ("tables", "gates")   # every translator module in harness/translators/ that setup.sh should run
 
 
 def regenerate(which=ALL):
